@@ -65,7 +65,7 @@ def numbers(maxmag=10 ** 15):
     ints = st.one_of(st.sampled_from([0, 1, -1, 2, -2, 5, -5, 10, -10]), st.integers(-1000, 1000), st.integers(-maxmag, maxmag))
     dyadic = st.tuples(st.integers(-10 ** 7, 10 ** 7), st.integers(1, 10)).map(lambda t: t[0] / float(2 ** t[1]))
     decimal = st.tuples(st.integers(-10 ** 7, 10 ** 7), st.integers(1, 6)).map(lambda t: t[0] / float(10 ** t[1]))
-    return st.one_of(ints, dyadic, decimal)
+    return st.one_of(ints, dyadic, decimal, ints, dyadic, decimal, st.sampled_from([0.0, -0.0, 0, 1e-9, -1e-9]))       # -0.0: what ROUND(-0.4,0), MOD(4.0,-2) or 0*-1.5 produce
 
 
 @st.composite
@@ -201,7 +201,9 @@ def check_divmod(case):
     r = number_result('QUOTIENT(%s,%s)' % (A, B), env)
     if r != tq:
         near = q.denominator != 1 and min(abs(q - math.floor(q)), abs(math.ceil(q) - q)) <= abs(q) * Fraction(1, 10 ** 12)
-        if not (near and abs(r - tq) <= 1):
+        # with a float operand the quotient is a double: beyond 2^52 neighbouring doubles are 2, 4, ... apart
+        slack = 1 if not (isinstance(a, float) or isinstance(b, float)) else max(1, abs(tq) // 2 ** 51)
+        if not ((near or slack > 1) and abs(r - tq) <= slack):
             raise Violation('QUOTIENT(%r,%r) = %r, truncated quotient is %r' % (a, b, r, tq), r, tq)
     r = number_result('MOD(%s,%s)' % (A, B), env)
     frr = fr(r)
